@@ -114,12 +114,13 @@ type Acc struct {
 	Probes       map[string]int64 `json:"probes"`
 	Faults       map[string]int64 `json:"faults"`
 	Hashes       map[int]uint64   `json:"run_hashes"` // run index -> event-log hash (determinism self-check)
+	ObsHash      map[int]uint64   `json:"obs_hashes"` // C14: run index -> hash of the canonical replica's observations (cross-process comparison)
 	Viol         []*Violation     `json:"violations"`
 	Trouble      []string         `json:"trouble"`
 }
 
 func NewAcc(prop string) *Acc {
-	return &Acc{Prop: prop, Distinct: map[uint64]bool{}, Probes: map[string]int64{}, Faults: map[string]int64{}, Hashes: map[int]uint64{}}
+	return &Acc{Prop: prop, Distinct: map[uint64]bool{}, Probes: map[string]int64{}, Faults: map[string]int64{}, Hashes: map[int]uint64{}, ObsHash: map[int]uint64{}}
 }
 
 func (a *Acc) Probe(name string, n int64) { a.Probes[name] += n }
@@ -176,6 +177,9 @@ func (a *Acc) Merge(b *Acc) {
 	}
 	for k, v := range b.Hashes {
 		a.Hashes[k] = v
+	}
+	for k, v := range b.ObsHash {
+		a.ObsHash[k] = v
 	}
 	a.Viol = append(a.Viol, b.Viol...)
 	a.Trouble = append(a.Trouble, b.Trouble...)
